@@ -6,7 +6,7 @@ import ast
 import string
 import z3
 
-from .values import (PyRaise, Abort, Unsupported, Impure, SOpt, FinStr, SStr, OpaqueStr, UTerm, Tok, SymMap, SymSeq, SymElem, PairSeq,
+from .values import (PyRaise, Abort, Unsupported, Impure, SOpt, FinStr, SStr, OpaqueStr, UTerm, Tok, SymMap, SymSeq, SymElem, PairSeq, ObjSeq, ObjSeqElem,
                      EnumMember, SEnum, Obj, FuncVal, ClassVal, Prop, ClassMethod, StaticMethod,
                      BoundMethod, Builtin, ExtType, ModVal, SuperProxy, is_z3, is_symbolic)
 from .logic import And, Or, Not, If, Eq, Div, Mod
@@ -327,8 +327,10 @@ class Interp:
             return True
         if isinstance(v, OpaqueStr):
             raise Unsupported("truthiness of untracked string")
-        if isinstance(v, SymSeq):
+        if isinstance(v, (SymSeq, ObjSeq)):
             return v.n > 0
+        if isinstance(v, ObjSeqElem):
+            return True
         if isinstance(v, UTerm):
             import hashlib
             return z3.Bool("truthy!" + hashlib.sha256(repr(v.key()).encode()).hexdigest()[:12])
@@ -590,6 +592,9 @@ class Interp:
         if isinstance(a, SOpt) or a is None or isinstance(b, SOpt) or b is None:
             a = self.unwrap(a, "TypeError", "unsupported operand type(s): NoneType")
             b = self.unwrap(b, "TypeError", "unsupported operand type(s): NoneType")
+        if isinstance(a, Builtin) and isinstance(b, Builtin) and "." in a.name and "." in b.name:
+            # two attributes of opaque library modules (flag constants such as regex.VERSION1 | regex.ASCII)
+            return UTerm("binop." + op, [UTerm("attr:" + a.name, [], "any"), UTerm("attr:" + b.name, [], "any")], "any")
         if isinstance(a, UTerm) or isinstance(b, UTerm):
             return UTerm("binop." + op, [a, b], a.sort if isinstance(a, UTerm) else b.sort)
         # datetime arithmetic
@@ -841,6 +846,14 @@ class Interp:
             return v.name
         if isinstance(v, (list, dict, tuple, set)):
             return Builtin(type(v).__name__ + "." + name, lambda it, a, k, _v=v, _n=name: it.container_method(_v, _n, a, k))
+        if isinstance(v, ObjSeqElem):
+            if name in v.attrs_of:
+                return v.attrs_of[name](v.base)
+            if has_default:
+                return default
+            raise Unsupported("attribute %s of an abstract list element" % name)
+        if isinstance(v, ObjSeq):
+            return Builtin("list." + name, lambda it, a, k, _v=v, _n=name: it.objseq_method(_v, _n, a, k))
         if isinstance(v, RRuleResult):
             raise Unsupported("rrule attribute %s" % name)
         if has_default:
@@ -1174,6 +1187,40 @@ class Interp:
             raise Unsupported("dict.%s on a symbolic map" % name)
         raise Unsupported("dict.%s on a symbolic map" % name)
 
+    def objseq_method(self, seq, name, args, kwargs):
+        """methods of a list of symbolic length.  sort: TRUSTED contract of list.sort (A-py) -- the new order is
+        the old one composed with a permutation pi of 0..n-1 under which the keys ascend"""
+        if name != "sort" or args or set(kwargs) - {"key", "reverse"}:
+            raise Unsupported("list.%s on a list of symbolic length" % name)
+        if kwargs.get("reverse", False) is not False:
+            raise Unsupported("reverse sort of a list of symbolic length")
+        if not seq.fresh:
+            self.events.append(("frame", "sort of a list the call did not allocate", self.cur_line))
+        key = kwargs.get("key")
+        k = len(seq.sorts)
+        pi = z3.Function("%s.pi%d" % (seq.name, k), z3.IntSort(), z3.IntSort())
+        inv = z3.Function("%s.pi%d.inv" % (seq.name, k), z3.IntSort(), z3.IntSort())
+        old_ix = seq.ix
+        b = z3.Int("%s.b%d" % (seq.name, k))
+        probe = ObjSeqElem(seq, b)
+        kt = self.call(key, [probe], {}) if key is not None else None
+        if kt is None or not is_z3(kt):
+            raise Unsupported("sort key of an abstract list element is not an arithmetic term")
+
+        def key_of(base):
+            return z3.substitute(kt, (b, base))
+        i, j = z3.Ints("%s.i%d %s.j%d" % (seq.name, k, seq.name, k))
+        n = seq.n
+        rng = lambda x: z3.And(x >= 0, x < n)
+        self.assume(z3.ForAll([i], z3.Implies(rng(i), z3.And(rng(pi(i)), inv(pi(i)) == i)), patterns=[pi(i)]))
+        self.assume(z3.ForAll([j], z3.Implies(rng(j), z3.And(rng(inv(j)), pi(inv(j)) == j)), patterns=[inv(j)]))
+        new_ix = lambda x, _o=old_ix, _p=pi: _o(_p(x))
+        self.assume(z3.ForAll([i, j], z3.Implies(z3.And(rng(i), rng(j), i <= j), key_of(new_ix(i)) <= key_of(new_ix(j))),
+                              patterns=[z3.MultiPattern(pi(i), pi(j))]))
+        seq.ix = new_ix
+        seq.sorts.append((pi, inv, key_of))
+        return None
+
     def list_sort(self, lst, key, reverse):
         """list.sort: stable insertion sort on a list of known length; symbolic comparisons fork"""
         if reverse not in (False, True):
@@ -1243,6 +1290,15 @@ class Interp:
             if self.branch(idx < 0):
                 idx = idx + v.n
             return SymElem(v, self.simp(idx))
+        if isinstance(v, ObjSeq):
+            idx = self.unwrap(idx)
+            if isinstance(idx, slice):
+                raise Unsupported("slice of an abstract sequence")
+            if self.branch(Not(And(idx >= -v.n, idx < v.n))):
+                raise PyRaise("IndexError", "list index out of range")
+            if self.branch(idx < 0):
+                idx = idx + v.n
+            return ObjSeqElem(v, self.simp(v.ix(self.simp(idx))))
         if isinstance(v, SymMap):
             kk = v.key(idx)
             if self.branch(z3.Not(z3.Select(v.dom, kk))):
@@ -1986,6 +2042,10 @@ class Interp:
             if isinstance(s.val, Obj) or isinstance(o, Obj):
                 return And(Not(s.is_none), s.val is o)
             raise Unsupported("'is' on optional scalar")
+        if isinstance(a, ObjSeqElem) and isinstance(b, ObjSeqElem) and a.family == b.family:
+            return a.base == b.base
+        if isinstance(a, ObjSeqElem) or isinstance(b, ObjSeqElem):
+            return False
         if isinstance(a, Obj) or isinstance(b, Obj):
             return a is b
         if isinstance(a, (ClassVal, ExtType)) and isinstance(b, (ClassVal, ExtType)):
